@@ -167,7 +167,7 @@ static zckDL *mk_dl(IN_dl *in, zckCtx *zck) {
             prev = r; g_rg[i] = r;
         }
     }
-    g_dr1 = g_rg[0]; g_dr2 = g_rg[1]; g_dr3 = g_rg[2];
+    DR_NONE_INIT(); g_dr1 = DR_NAME(g_rg[0]); g_dr2 = DR_NAME(g_rg[1]); g_dr3 = DR_NAME(g_rg[2]);
     V_ASSUME(in->cur >= -1 && in->cur < in->n_rng && in->chk >= -1 && in->chk < in->n_rng);
     range->index.current = in->cur < 0 ? NULL : g_rg[in->cur];
     zckDL *dl = malloc(sizeof(*dl));
@@ -233,7 +233,7 @@ void h_dl_write_range_ctl(void) {
 #ifdef VERIF_DL_ACYCLIC
     V_ASSUME(in.nx[0] != 1 && in.nx[1] == 0);      /* bounded variant: no cycles (the scan is unwound, not closed by a loop contract) */
 #endif
-    g_dr1 = g_rg[0]; g_dr2 = g_rg[1]; g_dr3 = NULL;
+    DR_NONE_INIT(); g_dr1 = g_rg[0]; g_dr2 = g_rg[1]; g_dr3 = DR_NONE;
     zckDL *dl = malloc(sizeof(*dl));
     V_ASSUME(dl != NULL);
     *dl = in.anydl;
@@ -290,7 +290,7 @@ static zckDL *mk_cb_dl(IN_dl *in) {
     }
     g_tg[2] = g_rg[2] = NULL;
     for(int i = 0; i < 2; i++) { g_rg[i]->src = g_tg[in->src_of[i] & 1]; g_rg[i]->next = pick_node(in->nx[i]); }
-    g_dr1 = g_rg[0]; g_dr2 = g_rg[1]; g_dr3 = NULL;
+    DR_NONE_INIT(); g_dr1 = g_rg[0]; g_dr2 = g_rg[1]; g_dr3 = DR_NONE;
     zckDL *dl = malloc(sizeof(*dl));
     V_ASSUME(dl != NULL);
     *dl = in->anydl;
@@ -325,7 +325,7 @@ void h_zck_write_chunk_cb(void) {
 #ifdef VERIF_NO_USER_CB
     in.wcb = 0;   /* variant: no client callback chained */
 #endif
-    zckDL *dl = in.dl_null ? NULL : mk_cb_dl(&in);
+    zckDL *dl = mk_cb_dl(&in);
     V_ASSUME(in.l <= 16 && in.c <= 16 && in.l * in.c <= 16);
     size_t n = in.l * in.c;
     char *p = malloc(n);
@@ -339,7 +339,6 @@ void h_zck_write_chunk_cb(void) {
     V_COVER(dl != NULL && r == n && n > 0 && !in.has_boundary && in.wic > 0);
     V_COVER(dl != NULL && r == n && n > 0 && in.has_boundary);
     V_COVER(dl != NULL && r == 0 && n > 0 && in.err0 == 0 && dl->zck->error_state == 0 && valid0[0] == 0 && g_tg[0]->valid == -1 && !in.has_boundary);   /* checksum mismatch reported */
-    V_COVER(dl == NULL && r == 0);
 #ifndef VERIF_NO_USER_CB
     V_COVER(dl != NULL && in.wcb && r == n && n > 0);
 #endif
@@ -350,7 +349,7 @@ void h_zck_write_zck_header_cb(void) {
     in.wcb = 0;
 #endif
     zckDL *dl = NULL;
-    if(!in.dl_null) {
+    {
         zckCtx *zck = mk_tgt(&in);
         dl = malloc(sizeof(*dl)); V_ASSUME(dl != NULL);
         *dl = in.anydl; dl->zck = zck;
@@ -363,12 +362,12 @@ void h_zck_write_zck_header_cb(void) {
     size_t wr0 = dl ? g_wr_bytes[G_IX(in.fd)] : 0;
     size_t r = zck_write_zck_header_cb(p, in.l, in.c, dl);
     V_ASSERT(dl == NULL || r != n || g_wr_bytes[G_IX(in.fd)] == wr0 + n, "C12.zck_write_zck_header_cb.accepting_means_every_byte_was_written");
-    V_COVER(dl != NULL && r == n && n > 0); V_COVER(dl != NULL && r != n && n > 0 && g_wr_bytes[G_IX(in.fd)] < wr0 + n); V_COVER(dl == NULL && r == 0);
+    V_COVER(dl != NULL && r == n && n > 0); V_COVER(dl != NULL && r != n && n > 0 && g_wr_bytes[G_IX(in.fd)] < wr0 + n);
 }
 void h_zck_header_cb(void) {
     IN_dl in = nondet_IN_dl();
-    zckDL *dl = in.dl_null ? NULL : mk_cb_dl(&in);
-    if(dl != NULL && in.zck_null) dl->zck = NULL;
+    zckDL *dl = mk_cb_dl(&in);
+    if(in.zck_null) dl->zck = NULL;
     V_ASSUME(in.l <= 24 && in.c <= 24 && in.l * in.c <= 24);
     size_t n = in.l * in.c;
     char *b = malloc(n);
@@ -376,7 +375,7 @@ void h_zck_header_cb(void) {
     size_t r = zck_header_cb(b, in.l, in.c, dl);
     V_ASSERT(dl == NULL || dl->hdr_regex == NULL || RX_COMPILED(dl->hdr_regex), "C17.zck_header_cb.no_uncompiled_pattern_left_behind_on_any_return");
     V_ASSERT(dl == NULL || in.hcb || r == n, "C17.zck_header_cb.header_lines_are_always_accepted");
-    V_COVER(dl != NULL && r == n && n > 0 && !in.hcb); V_COVER(dl != NULL && in.hcb); V_COVER(dl == NULL && r == 0);
+    V_COVER(dl != NULL && r == n && n > 0 && !in.hcb); V_COVER(dl != NULL && in.hcb);
 }
 
 /* ---- life-cycle units ------------------------------------------------------------------------------------- */
